@@ -168,6 +168,7 @@ def run_case(case):
             api = API(flavor, pool, net)
             scheme = "https" if h2 else "http"
             legal_seen = 0
+            pending_illegal = None
             seq_no += 1
             shared_path = next((x["path"] for x in seq if not x["illegal"]), "/")
             shared_url = httpcore.URL(f"{scheme}://o.test{shared_path}")
@@ -202,6 +203,7 @@ def run_case(case):
                     return r_.status
 
                 out = await guarded(flavor, scen)
+                ctx_early = {"flavor": flavor, "proto": proto, "position": pos}
                 cnt["oracle_caller_objects"] += 1
                 after = (bytes(shared_url), shared_url.target, list(hdr_arg), ext)
                 for name, a_, b_ in zip(("url", "url-target", "headers", "extensions"), snap, after):
@@ -212,7 +214,16 @@ def run_case(case):
                         ) if q["target_ext"] else "origin"
                 ctx = {"request": {k: q[k] for k in ("method", "path", "target_ext", "headers", "body_kind", "chunks", "illegal")},
                        "flavor": flavor, "proto": proto, "position": pos}
+                if h2 and not q["illegal"] and pending_illegal is not None:
+                    # a head rejected by validation (nothing encoded, nothing sent) must not cost the HTTP/2 connection:
+                    # the next legal request is carried by the same transport
+                    n_before, kind_ = pending_illegal
+                    pending_illegal = None
+                    if kind_ != "h2-te" and out.kind == "ok" and len(net.transports) > max(n_before, 1):
+                        v(f"illegal-head-cost-the-connection:h2:{kind_}", f"{len(net.transports)} transports after a rejected "
+                          f"head and one legal request; the rejected head left the connection unusable", ctx_early)
                 if q["illegal"]:
+                    pending_illegal = (len(net.transports), q["illegal"])
                     cnt["requests_illegal"] += 1
                     cnt["oracle_illegal"] += 1
                     sigs.add(f"{proto}|illegal|{q['illegal']}|pos{min(pos, 1)}")
